@@ -115,6 +115,11 @@ def handler(job):
         # something that must survive the call
         with open(os.path.join(given_tmp, "keep.me"), "w") as f:
             f.write("x")
+    stop_bystander = None
+    if job.get("bystander_thread"):
+        import threading
+        stop_bystander = threading.Event()
+        threading.Thread(target=stop_bystander.wait, daemon=True).start()     # idle: holds no lock, touches nothing
     systmp = os.environ["TMPDIR"]
     before_sys = listing(systmp)
     before_given = listing(given_tmp) if given_tmp else None
@@ -134,6 +139,10 @@ def handler(job):
                 yield e
         events = gen()
     t0 = time.time()
+    old_fsize = None
+    if job.get("process_fsize_limit") is not None:
+        old_fsize = resource.getrlimit(resource.RLIMIT_FSIZE)
+        resource.setrlimit(resource.RLIMIT_FSIZE, (job["process_fsize_limit"], old_fsize[1]))
 
     def go():
         if learner == "dict_ndl":
@@ -156,6 +165,10 @@ def handler(job):
                   n_outcomes_per_job=job.get("n_outcomes_per_job", 2), **kw)
         return "weights%r sum_abs=%r" % (tuple(w.shape), float(abs(w.values).sum()))
     res = capture(go)
+    if old_fsize is not None:
+        resource.setrlimit(resource.RLIMIT_FSIZE, old_fsize)
+    if stop_bystander is not None:
+        stop_bystander.set()
     res["wall_s"] = round(time.time() - t0, 2)
     res["system_tmp_new"] = sorted(set(listing(systmp)) - set(before_sys))
     res["given_tmp_new"] = sorted(set(listing(given_tmp)) - set(before_given)) if given_tmp else []
